@@ -253,6 +253,7 @@ let rule_name = function
   | R11_accept_from_stranger -> "accept_from_stranger" | R11_retry_too_early -> "retry_too_early"
   | R11_too_many_retries -> "too_many_retries" | R11_removed_too_early -> "removed_too_early"
   | R11_heard_but_supervising -> "heard_but_supervising"
+  | R11_offer_changes_ring_view -> "offer_changes_ring_view"
   | R12_gap_poll_outside_gap -> "gap_poll_outside_gap" | R12_two_gap_polls_per_visit -> "two_gap_polls_per_visit"
   | R12_reply_without_request -> "reply_without_request" | R12_reply_untruthful -> "reply_untruthful"
   | R12_reply_from_wrong_state -> "reply_from_wrong_state"
